@@ -475,6 +475,13 @@ class Run:
     def proof_obligations(self, pid=None):
         """stranger's grep + property file re-check; a failure is a violation without input"""
         pid = pid or self.pid
+        # incremental full .vo build (a no-op when everything is up to date); serialised by a lock file
+        import fcntl
+        with open(os.path.join(WORK, "make.lock"), "w") as lk:
+            fcntl.flock(lk, fcntl.LOCK_EX)
+            rc, out = coq_make(timeout=7200)
+        if rc != 0:
+            self.notes.append("coq make reported errors (files of other families may be broken): " + out[-300:])
         probs = stranger_grep()
         if probs:
             self.failing({"kind": "forbidden-construct"}, [], "forbidden construct in the development: %s" % probs[:5],
